@@ -49,6 +49,7 @@ type params struct {
 	RealPacer int           // >0: waits come from a real vegeta pacer (realPacers[RealPacer-1]); the harness pacer only counts and stops after N
 	ZeroRate  bool          // the pacer's Rate() is 0 (as the unlimited-rate pacer's is) and the client has a timeout
 	EOFFirst  bool          // targets carry a body; the transport fails the FIRST round trip of every hit with io.EOF (a kept-alive connection the server had closed)
+	UP        bool          // scheduling points right after every unlock (code that follows a critical section can be overtaken)
 	JSONTgt   bool          // Cause tgterr: the targets come from the real (instrumented) lazy JSON targeter over ErrAt lines; it runs dry at call ErrAt and stays dry
 }
 
@@ -98,6 +99,9 @@ func (p params) name() string {
 	}
 	if p.EOFFirst {
 		s += ",first-round-trip-fails-with-EOF"
+	}
+	if p.UP {
+		s += ",points-after-unlocks"
 	}
 	if p.RealPacer > 0 {
 		s += ",pacer=" + realPacerNames[p.RealPacer-1]
@@ -307,6 +311,7 @@ func (w *world) targeter(t *vegeta.Target) error {
 
 func (w *world) main() {
 	p := w.p
+	vsched.UnlockPoints = p.UP
 	if p.JSONTgt {
 		w.jsonTgt = vegeta.NewJSONTargeter(strings.NewReader(strings.Repeat(`{"method":"GET","url":"http://h/"}`+"\n", p.ErrAt)), nil, nil)
 	}
@@ -1019,6 +1024,10 @@ func c02Plans() []plan {
 		add(params{W0: 1, M: 2, N: 4, Cause: "stop1"}, 2)
 		add(params{W0: 3, M: 3, N: 4, Cause: "tgterr", ErrAt: 1}, 2)
 	}
+	// workers (and Stop callers) overtaken right after they leave a critical section
+	add(params{W0: 2, M: 2, N: 2, Cause: "pacer", UP: true}, ev.Pick(2, 3))
+	add(params{W0: 2, M: 2, N: 2, Cause: "stop1x2", UP: true}, ev.Pick(2, 3))
+	add(params{W0: 1, M: 2, N: 2, Cause: "tgterr", ErrAt: 1, UP: true}, ev.Pick(2, 3))
 	return ps
 }
 
@@ -1160,6 +1169,9 @@ func c05Plans() []plan {
 	// hits with a body whose first round trip dies with EOF
 	add(params{W0: 2, M: 2, N: 2, Cause: "pacer", EOFFirst: true}, ev.Pick(2, -1))
 	add(params{W0: 1, M: 2, N: 3, Cause: "pacer", EOFFirst: true}, ev.Pick(1, 2))
+	// workers overtaken right after they leave the critical section that stamps sequence number and timestamp
+	add(params{W0: 2, M: 2, N: 2, Cause: "pacer", UP: true}, ev.Pick(2, 3))
+	add(params{W0: 1, M: 2, N: 3, Cause: "pacer", UP: true, ClockHit: true, Mode: vsched.ClockTicking}, ev.Pick(1, 2))
 	if ev.Thorough() {
 		add(params{W0: 2, M: 2, N: 2, Cause: "pacer", Second: true}, 2)
 	}
